@@ -18,7 +18,7 @@ def run(run):
         "the parser only admits BREAK/CONTINUE inside loops, RETURN inside functions and EXIT outside functions; the theorems cover all syntax trees, the correspondence run only the ones csvq's parser accepts",
     ]
     run.obligations_for(["Csvq.Props.C15"])
-    run.stream("c15", 6000 if q else 150000)
+    run.stream("c15", 12000 if q else 150000)
     if not q:
         for k in range(1, 4):
             run.stream("c15", 100000, seed_offset=k)
